@@ -130,7 +130,19 @@ def impl_direct(case):
     for hi, h in enumerate(case["haps"]):
         single = hp.data[h["id"]].transform(g)
         out.append({"single": np.asarray(single).astype(bool).tolist(), "set": np.asarray(r.data[:, hi, :]).astype(bool).tolist()})
-    return {"haps": out, "records": rec}
+    # a haplotype object that was edited and used in between (its variant list cut to the first variant, transformed, restored)
+    # answers for the variants it lists now, as a new object with the same lines would
+    edited = []
+    _, hp2 = build_objects(case, case["with_anc"])  # objects that have not been asked anything yet
+    for hi, h in enumerate(case["haps"]):
+        obj = hp2.data[h["id"]]
+        full = obj.variants
+        if len(full) >= 2:
+            obj.variants = full[:1]
+            obj.transform(g)
+            obj.variants = full
+        edited.append(np.asarray(obj.transform(g)).astype(bool).tolist())
+    return {"haps": out, "records": rec, "single_after_edit": edited}
 
 
 def model_req_direct(case):
@@ -160,7 +172,9 @@ def equal_direct(a, b):
     if a.get("set_refused"):
         # the whole set was refused (a haplotype lists an allele its variant does not have): the single-haplotype answers remain
         return [h["single"] for h in a["haps"]] == [h["single"] for h in b["haps"]]
-    return C.canon({k: v for k, v in a.items() if k != "set_refused"}) == C.canon(b)
+    if "single_after_edit" in a and a["single_after_edit"] != [h["single"] for h in b["haps"]]:
+        return False
+    return C.canon({k: v for k, v in a.items() if k not in ("set_refused", "single_after_edit")}) == C.canon(b)
 
 
 def carries(case, h, s, k, with_anc):
@@ -177,6 +191,9 @@ def carries(case, h, s, k, with_anc):
 def oracle_direct(case, obs):
     if "error" in obs:
         return f"transform raised {obs}"
+    for hi, e in enumerate(obs.get("single_after_edit") or []):
+        if e != obs["haps"][hi]["single"]:
+            return f"haplotype {case['haps'][hi]['id']}: a new object whose variant list was cut to the first variant, transformed and restored answers {e}; the object that was never edited answers {obs['haps'][hi]['single']}"
     for hi, h in enumerate(case["haps"]):
         for s in range(len(case["samples"])):
             for k in (0, 1):
